@@ -84,13 +84,15 @@ def check_C06(chk):
         "f2/f3/f4/Fst take &Spectrum<Frequencies>, the only state-changing conversion is into_normalized, in which normalize() dominates "
         "into_state_unchecked, every other into_state_unchecked is state-preserving, Spectrum literals occur only in the three reviewed places, "
         "and normalize divides every element by the sum taken before the loop; (d) every estimator's *_unchecked body is reached only under "
-        "its dimension/shape guard.")
+        "its dimension/shape guard; (e) shape-level definitional facts: Fst's per-population correction terms pair the frequency and sample size of "
+        "the same axis, harmonic(n) = p_harmonic(n, 1) on every path, p_harmonic sums 1/i^p over 1..n.")
     chk.not_decided = "the numeric formulas of every estimator and their equality with the genotype-level definitions"
     c06a(chk)
     c06b(chk)
     c06c(chk)
     c06d(chk)
-    for r, n in (("C06.a", 28), ("C06.b", 16), ("C06.c", 7), ("C06.d", 10)):
+    c06e(chk)
+    for r, n in (("C06.a", 28), ("C06.b", 16), ("C06.c", 7), ("C06.d", 10), ("C06.e", 6)):
         chk.floor(r, n)
 
 
@@ -391,6 +393,84 @@ def promoted_value(f, idx):
                     if not q[1]:
                         vals[p[0]] = vals.get(q[0])
     return vals.get(0)
+
+
+def indexed_consts(f, op_or_local):
+    """constant indices k of `x[k]` reads (place projections and Index::index calls) in the backward slice of an operand"""
+    sl, info = f.slice_locals(op_or_local, through_calls=True)
+    ks = set()
+    for l in sl:
+        for d in f.defs.get(l, []):
+            if d[0] == "assign" and d[3]["k"] == "use":
+                p = op_place(d[3]["op"])
+                if p:
+                    for e in p[1]:
+                        if e[0] == "index":
+                            c = an.const_of(f, {"k": "copy", "place": {"l": e[1], "p": []}})
+                            if c is not None and isinstance(c.get("val"), int):
+                                ks.add(c["val"])
+                        if e[0] == "constindex":
+                            ks.add(e[1])
+    for b, t in info["calls"]:
+        if callee_is(t["callee"], N.INDEX) and len(t["args"]) == 2:
+            c = an.const_of(f, t["args"][1])
+            if c is not None and isinstance(c.get("val"), int):
+                ks.add(c["val"])
+    return ks
+
+
+def c06e(chk):
+    """axis-role consistency and definitional wiring that is visible in the shape of the code"""
+    prog = chk.prog
+    f = chk.fn(STAT + "Fst::from_sfs_unchecked")
+    cl = prog.fn(STAT + "Fst::from_sfs_unchecked::{closure#0}")
+    if f is not None and cl is not None:
+        chk.fns_analysed.add(cl.path)
+        caps = an.closure_captures(f, cl.path)
+        n = 0
+        for b, i, p, rv, s in cl.assigns():
+            if rv["k"] != "binop" or rv["op"] != "Div":
+                continue
+            # divisor: a captured value?
+            sl, info = cl.slice_locals(rv["r"], through_calls=False)
+            up = None
+            for l in sl:
+                for d in cl.defs.get(l, []):
+                    if d[0] == "assign" and d[3]["k"] == "use":
+                        q = op_place(d[3]["op"])
+                        if q and q[0] == 1:
+                            fs_ = [e for e in q[1] if e[0] == "field"]
+                            if fs_:
+                                up = fs_[0][1]
+            if up is None or caps is None or up >= len(caps) or caps[up] is None:
+                continue
+            n += 1
+            k_den = indexed_consts(f, caps[up][0])
+            k_num = indexed_consts(cl, rv["l"])
+            chk.ob("C06.e", "Fst/correction-term#%d/frequency-and-sample-size-of-the-same-axis" % n, len(k_den) == 1 and k_num == k_den, cl.loc(),
+                   "f(1-f)/(n-1) must combine the allele frequency and the sample size of the same population: numerator reads fs%s, divisor derives from shape%s" % (sorted(k_num), sorted(k_den)))
+        chk.ob("C06.e", "Fst/two-correction-terms", n == 2, cl.loc(), "expected the two per-population sample-size corrections (found %d)" % n, nontrivial=False)
+        # the two sample sizes come from different axes
+        if caps:
+            ks = [tuple(sorted(indexed_consts(f, c[0]))) for c in caps if c is not None]
+            chk.ob("C06.e", "Fst/sample-sizes-from-axes-0-and-1", sorted(ks) == [(0,), (1,)], f.loc(), "captured n_i - 1, n_j - 1 derive from shape[0] and shape[1] (found %s)" % ks)
+    h = chk.fn("sfs_core::utils::harmonic")
+    if h is not None:
+        cs = [(b, t) for b, t in h.calls()]
+        ok = len(cs) == 1 and callee_is(cs[0][1]["callee"], "sfs_core::utils::p_harmonic") and not list(h.switches()) and const_val(cs[0][1]["args"][1]) == 1 and op_local(cs[0][1]["args"][0]) is not None and h.copy_root(op_local(cs[0][1]["args"][0])) == 1
+        chk.ob("C06.e", "harmonic=p_harmonic(n,1)", ok, h.loc(), "a_n is computed by the exact sum p_harmonic(n, 1) on every path (no approximation branch)")
+    ph = chk.fn("sfs_core::utils::p_harmonic")
+    if ph is not None:
+        rng = [rv for b, i, p, rv, s in ph.assigns() if rv["k"] == "aggregate" and rv.get("adt") == "core::ops::range::Range"]
+        ok = len(rng) == 1 and const_val(rng[0]["ops"][0]) == 1 and op_local(rng[0]["ops"][1]) is not None and ph.copy_root(op_local(rng[0]["ops"][1])) == 1 and not list(ph.switches())
+        chk.ob("C06.e", "p_harmonic/sum-over-1..n", ok, ph.loc(), "a_n = sum_{i=1}^{n-1} 1/i^p: the half-open range 1..n on every path")
+        c = prog.fn("sfs_core::utils::p_harmonic::{closure#0}")
+        okc = False
+        if c is not None:
+            divs = [rv for b, i, p, rv, s in c.assigns() if rv["k"] == "binop" and rv["op"] == "Div"]
+            pows = [t for b, t in c.calls() if (t["callee"].get("path") or "") == "core::num::<impl u64>::pow"]
+            okc = len(divs) == 1 and isinstance(const_val(divs[0]["l"]), dict) and const_val(divs[0]["l"]).get("f") == "1.0" and len(pows) == 1
+        chk.ob("C06.e", "p_harmonic/term=1/i^p", okc, ph.loc(), "each term is 1.0 / (i.pow(p) as f64)")
 
 
 def c06d(chk):
